@@ -231,6 +231,8 @@ def dispatch_parts():
                     && (!old(self).in_flight_requests@.contains_key(resp.request_id) ==> final(fx).log == old(fx).log), // @C01
                 r matches Poll::Ready(Some(Err(e))) ==> e is Read && final(self).in_flight_requests == old(self).in_flight_requests && final(fx).log == old(fx).log, // @C09
                 r matches Poll::Ready(None) ==> final(self).transport@.read_done && final(self).in_flight_requests == old(self).in_flight_requests && final(fx).log == old(fx).log, // @C10
+                // C10: the end of the read side is reported the moment it is seen -- anything else means it has not ended
+                !(r matches Poll::Ready(None)) ==> !final(self).transport@.read_done, // @C10
                 r is Pending ==> final(self).transport@.read_reg && final(self).in_flight_requests == old(self).in_flight_requests && final(fx).log == old(fx).log, // @C02
               '''),
             F('ensure_writeable', tags='C14', attrs='#[verifier::exec_allows_no_decreases_clause]',
@@ -449,6 +451,9 @@ def dispatch_parts():
                 r is Pending ==> (final(self).transport@.unflushed == 0 || final(self).transport@.flush_reg), // @C14
                 r is Pending ==> final(self).transport@.read_reg, // @C02
                 r is Pending ==> (final(self).in_flight_requests@.dom().len() == 0 || final(self).in_flight_requests.timers_reg() || final(self).transport@.closed), // @C02
+                // C10: when the peer has ended the read side the dispatch stops at once -- it never goes back to waiting (for the
+                // write side, a flush, a timer) with the read side over
+                r is Pending ==> !final(self).transport@.read_done, // @C10
               ''',
               loops=['''
                 invariant
